@@ -67,12 +67,31 @@ func (c *c11Case) str(s string) string {
 	return gStr(s)
 }
 
+// lets must be called AFTER the terms that use bind() have been printed (it emits what they registered)
 func (c *c11Case) lets() string {
 	hh := "hm"
 	if c.hash != c.md5 {
 		hh = gStr(c.hash)
 	}
-	return fmt.Sprintf("let hm := %s in let hh := %s in let dd := %s in", gStr(c.md5), hh, gStr(string(c.data)))
+	l := fmt.Sprintf("let hm := %s in let hh := %s in let dd := %s in", gStr(c.md5), hh, gStr(string(c.data)))
+	for i, v := range c.bound {
+		l += fmt.Sprintf(" let w%d := %s in", i, gStr(v))
+	}
+	return l
+}
+
+// bind prints a uuid or URL; each distinct one is a string literal once per case (let w<k>), pure syntax
+func (c *c11Case) bind(s string) string {
+	if c.boundIdx == nil {
+		c.boundIdx = map[string]int{}
+	}
+	k, ok := c.boundIdx[s]
+	if !ok {
+		k = len(c.bound)
+		c.boundIdx[s] = k
+		c.bound = append(c.bound, s)
+	}
+	return fmt.Sprintf("w%d", k)
 }
 
 type c11Svc struct {
@@ -92,7 +111,8 @@ func (s c11Svc) url() string {
 }
 
 type c11Case struct {
-	svcs    []c11Svc
+	svcs    []c11Svc   // the list in force for the Put (loaded last)
+	earlier [][]c11Svc // lists the client was given before it (refresh history), oldest first
 	order   []int
 	want    int
 	retries int
@@ -104,14 +124,20 @@ type c11Case struct {
 	table   [][]c11Outcome
 	picks   []int
 	tags    []string
+	bound    []string
+	boundIdx map[string]int
 }
 
 var c11Entries = []string{"EPutB", "EPutHB", "EPutHR"}
 
 func (c *c11Case) gallinaIn() string {
-	sv := make([]string, len(c.svcs))
-	for i, s := range c.svcs {
-		sv[i] = fmt.Sprintf("K %s %d%%N %s %s %s", gStr(s.host), s.port, gBool(s.ssl), gStr(s.typ), gBool(s.ro))
+	var lists []string
+	for _, l := range append(append([][]c11Svc(nil), c.earlier...), c.svcs) {
+		sv := make([]string, len(l))
+		for i, s := range l {
+			sv[i] = fmt.Sprintf("D %s %s %d%%N %s %s %s", c.bind(s.uuid), gStr(s.host), s.port, gBool(s.ssl), gStr(s.typ), gBool(s.ro))
+		}
+		lists = append(lists, gList(sv))
 	}
 	ord := make([]string, len(c.order))
 	for i, o := range c.order {
@@ -129,8 +155,8 @@ func (c *c11Case) gallinaIn() string {
 	for i, p := range c.picks {
 		pk[i] = fmt.Sprint(p)
 	}
-	return fmt.Sprintf("{| i_svcs := %s; i_order := %s; i_want := %d; i_retries := %d; i_entry := %s; i_hash := %s; i_data := %s; i_nbytes := %d%%N; i_md5 := %s;\n    i_table := %s; i_picks := %s |}",
-		gList(sv), gList(ord), c.want, c.retries, c11Entries[c.entry], c.str(c.hash), c.str(string(c.data)), c.nbytes, c.str(c.md5), gList(tab), gList(pk))
+	return fmt.Sprintf("{| i_lists := %s; i_order := %s; i_want := %d; i_retries := %d; i_entry := %s; i_hash := %s; i_data := %s; i_nbytes := %d%%N; i_md5 := %s;\n    i_table := %s; i_picks := %s |}",
+		gList(lists), gList(ord), c.want, c.retries, c11Entries[c.entry], c.str(c.hash), c.str(string(c.data)), c.nbytes, c.str(c.md5), gList(tab), gList(pk))
 }
 
 // ---- generator ----
@@ -222,6 +248,69 @@ func c11GenServices(r *vRand, nw, nro int, kind int) []c11Svc {
 	return svcs
 }
 
+// c11Earlier derives the lists the client was given before the final one (initial discovery, refreshes):
+// each is a variation of the final list.  The strata follow the ways a refresh can differ from what the
+// client already holds: only read_only flags (same uuids and URLs), membership, URL of a uuid, service
+// type, nothing at all, everything.
+func c11Earlier(r *vRand, final []c11Svc, n int) ([][]c11Svc, []string) {
+	var out [][]c11Svc
+	var tags []string
+	for k := 0; k < n; k++ {
+		l := append([]c11Svc(nil), final...)
+		kind := r.Pick("flip-ro", "flip-ro", "flip-ro", "all-writable", "all-readonly", "remove", "add", "move-url", "retype", "same", "other")
+		switch kind {
+		case "flip-ro":
+			any := false
+			for i := range l {
+				if r.Chance(1, 2) {
+					l[i].ro = !l[i].ro
+					any = true
+				}
+			}
+			if !any && len(l) > 0 {
+				i := r.Intn(len(l))
+				l[i].ro = !l[i].ro
+			}
+		case "all-writable":
+			for i := range l {
+				l[i].ro = false
+			}
+		case "all-readonly":
+			for i := range l {
+				l[i].ro = true
+			}
+		case "remove":
+			if len(l) > 1 {
+				i := r.Intn(len(l))
+				l = append(l[:i:i], l[i+1:]...)
+			}
+		case "add":
+			l = append(l, c11Svc{uuid: c11UUID(r), host: fmt.Sprintf("old%d", k), port: 25107, typ: r.Pick("disk", "proxy"), ro: r.Bool()})
+		case "move-url":
+			if len(l) > 0 {
+				i := r.Intn(len(l))
+				l[i].host = fmt.Sprintf("moved%d", k)
+				l[i].ro = r.Bool()
+			}
+		case "retype":
+			for i := range l {
+				if r.Chance(1, 2) {
+					l[i].typ = r.Pick("disk", "proxy")
+				}
+			}
+		case "other":
+			l = nil
+			for i := 0; i < 1+r.Intn(3); i++ {
+				l = append(l, c11Svc{uuid: c11UUID(r), host: fmt.Sprintf("other%d-%d", k, i), port: 25107, typ: r.Pick("disk", "proxy"), ro: r.Chance(1, 3)})
+			}
+		}
+		out = append(out, l)
+		tags = append(tags, "earlier-list="+kind)
+	}
+	tags = append(tags, fmt.Sprintf("lists-loaded=%d", n+1))
+	return out, tags
+}
+
 func c11Gen(r *vRand) *c11Case {
 	c := &c11Case{}
 	nw := 1 + r.Intn(5)
@@ -243,6 +332,19 @@ func c11Gen(r *vRand) *c11Case {
 		d.typ = r.Pick("disk", "proxy")
 		c.svcs = append(c.svcs, d)
 		c.tags = append(c.tags, "duplicate-url")
+	}
+	{
+		ne := 0
+		switch x := r.Intn(20); {
+		case x < 7:
+		case x < 16:
+			ne = 1
+		default:
+			ne = 2
+		}
+		var tg []string
+		c.earlier, tg = c11Earlier(r, c.svcs, ne)
+		c.tags = append(c.tags, tg...)
 	}
 	c.want = 1 + r.Intn(3)
 	c.retries = r.Intn(4)
@@ -397,6 +499,11 @@ func c11FinishEnum(c *c11Case, r *vRand) {
 		}
 		c.table = append(c.table, row)
 	}
+	if r.Chance(1, 3) {
+		var tg []string
+		c.earlier, tg = c11Earlier(r, c.svcs, 1)
+		c.tags = append(append([]string(nil), c.tags...), tg...)
+	}
 	c.data = []byte(fmt.Sprintf("exh-%d", r.Intn(1000000)))
 	c.md5 = fmt.Sprintf("%x", md5.Sum(c.data))
 	c.hash = c.md5
@@ -493,6 +600,8 @@ type c11Obs struct {
 	sync     bool
 	reqs     []*c11Req
 	diag     string
+	// kc.LocalRoots(), kc.WritableLocalRoots(), kc.GatewayRoots() after the last list was loaded
+	local, writable, gateway map[string]string
 }
 
 type c11Result struct {
@@ -552,10 +661,11 @@ func (c *c11Case) answer(q *c11Req) (c11Outcome, string) {
 	return o, g
 }
 
-func c11Run(t *testing.T, c *c11Case, sched [][]int, stepWait time.Duration) *c11Obs {
+func c11Run(t *testing.T, c *c11Case, sched [][]int, stepWait, watchdog time.Duration) *c11Obs {
 	// stepWait bounds the wait for a predicted set of requests (shortened by the caller when the lock-step is
 	// lost in most cases anyway); the waits that decide `returned` are never shortened
-	const watchdog = 6 * time.Second
+	// watchdog bounds the waits that decide `returned` (6 s on the first run of a case; a case whose Put did not
+	// return is run again with a much longer one, so that machine load cannot turn into a verdict)
 	obs := &c11Obs{sync: true}
 	stub := &c11Stub{byURL: map[string]int{}, attempt: map[int]int{}}
 	for i, s := range c.svcs {
@@ -564,9 +674,19 @@ func c11Run(t *testing.T, c *c11Case, sched [][]int, stepWait time.Duration) *c1
 		}
 	}
 	kc := &KeepClient{Arvados: &arvadosclient.ArvadosClient{ApiToken: "tok"}, Want_replicas: c.want, Retries: c.retries, HTTPClient: stub, BlockCache: &BlockCache{}}
+	// the client is given its lists one after the other; between two lists it is used for reading its roots,
+	// as every operation does
+	for _, l := range c.earlier {
+		if err := kc.LoadKeepServicesFromJSON(c11JSON(l)); err != nil {
+			t.Fatalf("LoadKeepServicesFromJSON: %v", err)
+		}
+		kc.LocalRoots()
+		kc.WritableLocalRoots()
+	}
 	if err := kc.LoadKeepServicesFromJSON(c.servicesJSON()); err != nil {
 		t.Fatalf("LoadKeepServicesFromJSON: %v", err)
 	}
+	obs.local, obs.writable, obs.gateway = c11CopyMap(kc.LocalRoots()), c11CopyMap(kc.WritableLocalRoots()), c11CopyMap(kc.GatewayRoots())
 	base := runtime.NumGoroutine()
 	resCh := make(chan c11Result, 1)
 	var res *c11Result
@@ -730,7 +850,31 @@ func c11Run(t *testing.T, c *c11Case, sched [][]int, stepWait time.Duration) *c1
 	return obs
 }
 
-func (c *c11Case) servicesJSON() string {
+func c11CopyMap(m map[string]string) map[string]string {
+	o := map[string]string{}
+	for k, v := range m {
+		o[k] = v
+	}
+	return o
+}
+
+// a uuid -> url map as a Gallina association list, sorted by uuid
+func (c *c11Case) pairs(m map[string]string) string {
+	var ks []string
+	for k := range m {
+		ks = append(ks, k)
+	}
+	sort.Strings(ks)
+	ps := make([]string, len(ks))
+	for i, k := range ks {
+		ps[i] = fmt.Sprintf("(%s, %s)", c.bind(k), c.bind(m[k]))
+	}
+	return gList(ps)
+}
+
+func (c *c11Case) servicesJSON() string { return c11JSON(c.svcs) }
+
+func c11JSON(svcs []c11Svc) string {
 	type item struct {
 		UUID string `json:"uuid"`
 		Host string `json:"service_host"`
@@ -739,8 +883,8 @@ func (c *c11Case) servicesJSON() string {
 		Type string `json:"service_type"`
 		RO   bool   `json:"read_only"`
 	}
-	var items []item
-	for _, s := range c.svcs {
+	items := []item{}
+	for _, s := range svcs {
 		items = append(items, item{s.uuid, s.host, s.port, s.ssl, s.typ, s.ro})
 	}
 	j, _ := json.Marshal(map[string]interface{}{"items": items})
@@ -799,8 +943,8 @@ func (o *c11Obs) gallina(c *c11Case) string {
 		}
 		rq[i] = fmt.Sprintf("Q %d %s %s %d%%N %s", q.svc, c.str(q.path), gStr(q.desired), cl, c.str(string(q.body)))
 	}
-	return fmt.Sprintf("{| ob_steps := %s;\n    ob_extra := %s; ob_res := %s;\n    ob_reqs := %s; ob_returned := %s; ob_sync := %s |}",
-		gList(st), gList(ex), res, gList(rq), gBool(o.returned), gBool(o.sync))
+	return fmt.Sprintf("{| ob_steps := %s;\n    ob_extra := %s; ob_res := %s;\n    ob_reqs := %s; ob_returned := %s; ob_sync := %s;\n    ob_local := %s; ob_writable := %s; ob_gateway := %s |}",
+		gList(st), gList(ex), res, gList(rq), gBool(o.returned), gBool(o.sync), c.pairs(o.local), c.pairs(o.writable), c.pairs(o.gateway))
 }
 
 func c11Build(t *testing.T, seed uint64, i int, enum []*c11Case) *c11Case {
@@ -851,7 +995,8 @@ func TestVerifC11(t *testing.T) {
 				continue
 			}
 			c := c11Build(t, seed, i, enum)
-			terms = append(terms, "("+c.lets()+" "+c.gallinaIn()+")")
+			gin := c.gallinaIn()
+			terms = append(terms, "("+c.lets()+" "+gin+")")
 			idx = append(idx, i)
 		}
 		nsh := 0
@@ -892,13 +1037,20 @@ func TestVerifC11(t *testing.T) {
 		if !ok {
 			t.Fatalf("no schedule for case %d", i)
 		}
-		obs := c11Run(t, c, sched, watchdog)
+		obs := c11Run(t, c, sched, watchdog, 6*time.Second)
+		if !obs.returned {
+			// "Put does not return" is judged with a generous margin: the same inputs and schedule once more with
+			// a 60 s watchdog (a real hang reproduces; an overloaded machine does not)
+			c = c11Build(t, seed, i, enum)
+			obs = c11Run(t, c, sched, 4*watchdog, 60*time.Second)
+			reruns++
+		}
 		for try := 0; try < 2 && !obs.sync && obs.returned && lost <= 40; try++ {
 			// The lock-step is decided by watchdogs; on a heavily loaded machine one of them can expire
 			// although nothing is wrong.  The inputs and the schedule are deterministic, so the case is
 			// simply run again (fresh KeepClient): a real disagreement shows up again.
 			c = c11Build(t, seed, i, enum)
-			obs = c11Run(t, c, sched, 2*watchdog)
+			obs = c11Run(t, c, sched, 2*watchdog, 6*time.Second)
 			reruns++
 		}
 		if !obs.returned {
@@ -910,7 +1062,8 @@ func TestVerifC11(t *testing.T) {
 				watchdog = 300 * time.Millisecond // do not spend minutes when everything is off
 			}
 		}
-		term := "(" + c.lets() + " {| c_in := " + c.gallinaIn() + ";\n   c_obs := " + obs.gallina(c) + " |})"
+		gin, gob := c.gallinaIn(), obs.gallina(c)
+		term := "(" + c.lets() + " {| c_in := " + gin + ";\n   c_obs := " + gob + " |})"
 		tab := make([][]string, len(c.table))
 		for s, row := range c.table {
 			for _, o := range row {
@@ -925,13 +1078,22 @@ func TestVerifC11(t *testing.T) {
 		}
 		var svd []string
 		for _, s := range c.svcs {
-			svd = append(svd, fmt.Sprintf("%s %s ro=%v", s.url(), s.typ, s.ro))
+			svd = append(svd, fmt.Sprintf("%s %s %s ro=%v", s.uuid, s.url(), s.typ, s.ro))
 		}
 		var std []string
 		for _, s := range obs.steps {
 			std = append(std, fmt.Sprintf("started%v done=%d attempt=%d", s.started, s.done, s.round))
 		}
-		desc := map[string]interface{}{"index": i, "entry": c11Entries[c.entry], "services": svd, "order": c.order, "want": c.want, "retries": c.retries,
+		var earlier [][]string
+		for _, l := range c.earlier {
+			var e []string
+			for _, s := range l {
+				e = append(e, fmt.Sprintf("%s %s %s ro=%v", s.uuid, s.url(), s.typ, s.ro))
+			}
+			earlier = append(earlier, e)
+		}
+		desc := map[string]interface{}{"index": i, "entry": c11Entries[c.entry], "services": svd, "earlier_lists": earlier,
+			"roots_after_loading": map[string]interface{}{"local": obs.local, "writable": obs.writable, "gateway": obs.gateway}, "order": c.order, "want": c.want, "retries": c.retries,
 			"data_len": len(c.data), "nbytes": c.nbytes, "hash": c.hash, "answers": tab, "picks": c.picks, "schedule": sched,
 			"observed_steps": std, "extra": obs.extra, "locator": obs.loc, "replicas": obs.n, "error_class": []string{"nil", "insufficient", "oversize"}[obs.errClass],
 			"error": obs.errMsg, "diag": obs.diag, "returned": obs.returned, "lockstep_kept": obs.sync, "requests": len(obs.reqs)}
